@@ -34,9 +34,18 @@ ASSUMPTIONS = [
     "raise are not visible to the handler in pytype's VM design)",
     "class-level mutable attributes mutated through instances are not "
     "generated (pytype documents per-instance tracking only)",
+    "programs for which pytype reports wrong-arg-types / "
+    "annotation-type-mismatch / bad-return-type contradict their own "
+    "annotations at run time and are discarded (pytype trusts annotations by "
+    "design; that they are reported is C02's subject)",
+    "two recorded findings are excluded from the random programs by "
+    "construction because their wrong type makes later branches look dead "
+    "(`'k' in d` after a conditional store; conditional instance-attribute "
+    "store over a class attribute); their recorded inputs are re-confirmed "
+    "on every run",
 ]
 
-NONTRIVIAL = {"flow:dict-store", "flow:dict-in", "flow:attr-store", "flow:list-mutate", "flow:list-insert", "flow:dict-del", "flow:set-add", "flow:nested-store", "type-dispatch", "bool-op-value", "truthiness",
+NONTRIVIAL = {"diamond-super", "flow:dict-store", "flow:dict-in", "flow:attr-store", "flow:list-mutate", "flow:list-insert", "flow:dict-del", "flow:set-add", "flow:nested-store", "type-dispatch", "bool-op-value", "truthiness",
               "branch-different-kinds", "conditional-return",
               "override-different-kind", "isinstance", "none-test", "try",
               "attribute-set-from-outside", "multiple-inheritance",
@@ -139,6 +148,12 @@ def check_program(ctx, prog, label="G"):
   except Exception as e:  # pylint: disable=broad-except
     ctx.event("analysis-raised:" + type(e).__name__)
     return
+  if any(n in ("wrong-arg-types", "annotation-type-mismatch",
+               "bad-return-type") for n, _, _ in r.errors):
+    # the program contradicts its own annotations at run time (pytype says so
+    # and, by design, trusts the annotation): outside the property
+    ctx.event("discarded:program-contradicts-its-annotations")
+    return
   O = oracle_types.Oracle()
   consts, classes, funcs, aliases = stub_index(r.ast)
   feats = set(prog["features"])
@@ -185,7 +200,8 @@ def check_program(ctx, prog, label="G"):
     ok = O.admits(t, val)
     ctx.check(ok, "stub-type-excludes-runtime-value:module-name" + (
         "" if ok else (class_attr_behind_instance_store(src, name, ns) or
-                       dict_membership_after_store(src, name, ns))),
+                       dict_membership_after_store(src, name, ns) or
+                       assigned_from_reused_call(src, name))),
               "%s: stub type %s does not admit the run-time value %r" % (
                   name, an_print(t), val), case)
     # instance attributes
@@ -225,7 +241,8 @@ def check_program(ctx, prog, label="G"):
     rets = [s.return_type for s in f.signatures]
     ok = any(admits_return(O, s, val, recv) for s in f.signatures)
     ctx.check(ok, "stub-type-excludes-runtime-value:call-result" + (
-        ":inherited-method-on-subclass-instance" if on_subclass else ""),
+        ":inherited-method-on-subclass-instance" if on_subclass else
+        ("" if ok else reads_rebound_global_transitively(src, parts[-1]))),
               "%s() returned %r but the stub declares %s" % (
                   qual, val, [an_print(t) for t in rets]), case)
   if O.unmodelled:
@@ -245,6 +262,61 @@ def admits_return(O, sig, val, recv):
     if isinstance(p0, pytd.TypeParameter) and p0.name == rt.name:
       return isinstance(val, recv)
   return O.admits(rt, val)
+
+
+def reads_rebound_global_transitively(src, fname):
+  """Suffix for one recorded finding: module-level function `fname` calls
+  (possibly through further functions) a function that reads a module-level
+  name which the program binds more than once, without reading it itself -
+  pytype's call cache is keyed by the globals the callee names directly."""
+  tree = pyast.parse(src)
+  binds = {}
+  funcs = {}
+  for node in tree.body:
+    if isinstance(node, (pyast.FunctionDef, pyast.AsyncFunctionDef)):
+      funcs[node.name] = node
+    for n in pyast.walk(node) if not isinstance(
+        node, (pyast.FunctionDef, pyast.AsyncFunctionDef,
+               pyast.ClassDef)) else []:
+      if isinstance(n, pyast.Name) and isinstance(n.ctx, pyast.Store):
+        binds[n.id] = binds.get(n.id, 0) + 1
+  for f in funcs.values():
+    declared = {g for n in pyast.walk(f) if isinstance(n, pyast.Global)
+                for g in n.names}
+    for n in pyast.walk(f):
+      if (isinstance(n, pyast.Name) and isinstance(n.ctx, pyast.Store) and
+          n.id in declared):
+        binds[n.id] = binds.get(n.id, 0) + 1
+  rebound = {k for k, c in binds.items() if c >= 2}
+  reads = {name: {n.id for n in pyast.walk(f) if isinstance(n, pyast.Name) and
+                  isinstance(n.ctx, pyast.Load)} for name, f in funcs.items()}
+  if fname not in funcs or reads[fname] & rebound:
+    return ""
+  seen, todo = set(), [fname]
+  while todo:
+    x = todo.pop()
+    for callee in reads.get(x, ()):
+      if callee in funcs and callee not in seen:
+        seen.add(callee)
+        if reads[callee] & rebound:
+          return ":call-result-reused-despite-transitively-read-global"
+        todo.append(callee)
+  return ""
+
+
+def assigned_from_reused_call(src, name):
+  """`name = f(...)` (last module-level assignment) with f as in
+  reads_rebound_global_transitively."""
+  last = None
+  for node in pyast.parse(src).body:
+    if (isinstance(node, pyast.Assign) and len(node.targets) == 1 and
+        isinstance(node.targets[0], pyast.Name) and
+        node.targets[0].id == name):
+      last = node
+  if (last is not None and isinstance(last.value, pyast.Call) and
+      isinstance(last.value.func, pyast.Name)):
+    return reads_rebound_global_transitively(src, last.value.func.id)
+  return ""
 
 
 def class_attr_behind_instance_store(src, name, ns):
@@ -315,6 +387,31 @@ def an_print(t):
 
 
 FIXED = [
+    # cooperative super() in a diamond
+    """class Base:
+  def __init__(self):
+    self.tag = 0
+  def describe(self):
+    return 0
+class Left(Base):
+  def __init__(self):
+    super().__init__()
+  def describe(self):
+    return super().describe()
+class Right(Base):
+  def __init__(self):
+    self.tag = "right"
+  def describe(self):
+    return "right"
+class Diamond(Left, Right):
+  pass
+r = Diamond().describe()
+t = Diamond().tag
+r2 = Left().describe()
+""",
+    "t = [1, 1, 1, 1, 1, 1, 1, 1, 1, 1, 1, 1, 1, 1, 1, 1, 1, 1, 1, 1, 1, 1, 1, 1, 1, 1, 1, 1, 1, 1, 1, 1, 1, 1, 1, 1, 1, 1, 1, 1, 1, 1, 1, 1, 1, 1, 1, 1, 1, 1, 1, 1, 1, 1, 1, 1, 1, 1, 1, 1, 1, 1, 1, 's', None, 2.5]\nu = t[63]\nv = t[-1]\nw = t[62]\nx = t[-66]\n",
+    # long literals: kept prefix, tail types, indices on both sides (fix 15006b4)
+    "big = [0, 1, 2, 3, 4, 5, 6, 7, 8, 9, 10, 11, 12, 13, 14, 15, 16, 17, 18, 19, 20, 21, 22, 23, 24, 25, 26, 27, 28, 29, 30, 31, 32, 33, 34, 35, 36, 37, 38, 39, 40, 41, 42, 43, 44, 45, 46, 47, 48, 49, 50, 51, 52, 53, 54, 55, 56, 57, 58, 59, 60, 61, 62, 63, 64, 65, 'tail', None, 2.5, 66]\na = big[0]\nb = big[-1]\nc = big[61]\nd = big[66]\ne = big[-3]\nf = big[60:63]\n",
     # nested class named like a module-level class; a method returns the
     # module-level one (fix 3694df8)
     """class Node:
